@@ -689,43 +689,60 @@ func c13CloseInsideOwnCallback(c *vf.Case, ioc *sonic.IO) {
 // the connection (what a websocket user does with NextLayer().Close() and CloseNextLayer()) must not close the
 // descriptor number twice.
 func c13AdapterOwnership(c *vf.Case, ioc *sonic.IO) {
-	lfd, port, err := rawpeer.Listen4()
-	if err != nil {
-		c.Failf("harness-setup", "%v", err)
-		return
+	// two orders: the adapter first and then the connection it wraps, and the connection first (what
+	// websocket.Stream.CloseNextLayer does) and then the adapter - another object takes the freed number in between
+	for _, connFirst := range []bool{false, true} {
+		lfd, port, err := rawpeer.Listen4()
+		if err != nil {
+			c.Failf("harness-setup", "%v", err)
+			return
+		}
+		nc, err := net.Dial("tcp", rawpeer.AddrOf(port))
+		if err != nil {
+			syscall.Close(lfd)
+			c.Failf("harness-setup", "%v", err)
+			return
+		}
+		pfd, _, perr := rawpeer.Accept(lfd)
+		var ad *sonic.AsyncAdapter
+		sonic.NewAsyncAdapter(ioc, nc.(*net.TCPConn), nc, func(e error, a *sonic.AsyncAdapter) { ad = a })
+		if ad == nil {
+			syscall.Close(lfd)
+			c.Failf("harness-setup", "no adapter")
+			return
+		}
+		first, second := ad.Close, nc.Close
+		order := "adapter then net.Conn"
+		if connFirst {
+			first, second = nc.Close, ad.Close
+			order = "net.Conn then adapter"
+		}
+		_ = first()
+		// another object takes the freed descriptor number
+		other, err := sonic.NewPacketConn(ioc, "udp", "127.0.0.1:0")
+		if err != nil {
+			syscall.Close(lfd)
+			c.Failf("harness-setup", "%v", err)
+			return
+		}
+		withOther := rawpeer.TakeCensus()
+		_ = second()
+		after := rawpeer.TakeCensus()
+		_, closed := withOther.Diff(after)
+		c.Logf("%s, NewPacketConn (fd %d) in between -> descriptors gone: %v", order, other.RawFd(), closed)
+		c.Cover("double_close_pairs", order+" with a packet-conn in between")
+		if len(closed) > 0 {
+			c.Failf("second-close-closed-a-foreign-descriptor/adapter-and-its-net.Conn", "closing %s closed a descriptor that meanwhile belonged to another object: %v", order, closed)
+		}
+		_ = other.Close()
+		syscall.Close(lfd)
+		if perr == nil {
+			syscall.Close(pfd)
+		}
+		if c.Failed() {
+			return
+		}
 	}
-	defer syscall.Close(lfd)
-	nc, err := net.Dial("tcp", rawpeer.AddrOf(port))
-	if err != nil {
-		c.Failf("harness-setup", "%v", err)
-		return
-	}
-	if pfd, _, err := rawpeer.Accept(lfd); err == nil {
-		defer syscall.Close(pfd)
-	}
-	var ad *sonic.AsyncAdapter
-	sonic.NewAsyncAdapter(ioc, nc.(*net.TCPConn), nc, func(e error, a *sonic.AsyncAdapter) { ad = a })
-	if ad == nil {
-		c.Failf("harness-setup", "no adapter")
-		return
-	}
-	_ = ad.Close()
-	// another object takes the freed descriptor number
-	other, err := sonic.NewPacketConn(ioc, "udp", "127.0.0.1:0")
-	if err != nil {
-		c.Failf("harness-setup", "%v", err)
-		return
-	}
-	withOther := rawpeer.TakeCensus()
-	_ = nc.Close()
-	after := rawpeer.TakeCensus()
-	_, closed := withOther.Diff(after)
-	c.Logf("adapter.Close(); NewPacketConn (fd %d); net.Conn.Close() -> descriptors gone: %v", other.RawFd(), closed)
-	c.Cover("double_close_pairs", "adapter+net.Conn then packet-conn")
-	if len(closed) > 0 {
-		c.Failf("second-close-closed-a-foreign-descriptor/adapter-and-its-net.Conn", "closing an AsyncAdapter and then the net.Conn it wraps closed a descriptor that meanwhile belonged to another object: %v", closed)
-	}
-	_ = other.Close()
 }
 
 // c13DoubleCloseThenGC: close A; create B on the freed descriptor number and leave an operation deferred on it;
@@ -1256,6 +1273,96 @@ func c13Await(ioc *sonic.IO, vfd int, events int16, completed *int) string {
 	return ""
 }
 
+// c13RecreateInsideHandler: the completion handler of a deferred read closes its connection and dials a new one at
+// once (the reconnect idiom); the new connection receives the descriptor number just released and parks a read before
+// the handler returns. Whatever the library still does on behalf of the closed connection after the handler returns
+// must leave the new one alone: with every reference dropped and the collector run, the new connection's read still
+// completes.
+func c13RecreateInsideHandler(c *vf.Case, ioc *sonic.IO) {
+	lfd, port, err := rawpeer.Listen4()
+	if err != nil {
+		c.Failf("harness-setup", "%v", err)
+		return
+	}
+	defer syscall.Close(lfd)
+	finalized := new(int32)
+	completed, firstDone := 0, 0
+	var gotN int
+	var gotErr error
+	peerA, peerB, vfd := -1, -1, -1
+	sameNumber := false
+	func() {
+		sentinel := &c13Sentinel{}
+		runtime.SetFinalizer(sentinel, func(*c13Sentinel) { *finalized = 1 })
+		a, err := sonic.Dial(ioc, "tcp", rawpeer.AddrOf(port))
+		if err != nil {
+			c.Failf("harness-setup", "%v", err)
+			return
+		}
+		peerA, _, _ = rawpeer.Accept(lfd)
+		afd := a.RawFd()
+		a.AsyncRead(make([]byte, 16), func(error, int) {
+			firstDone++
+			_ = a.Close()
+			b, err := sonic.Dial(ioc, "tcp", rawpeer.AddrOf(port))
+			if err != nil {
+				return
+			}
+			peerB, _, _ = rawpeer.Accept(lfd)
+			vfd = b.RawFd()
+			sameNumber = vfd == afd
+			b.AsyncRead(make([]byte, 16), func(err error, n int) {
+				completed++
+				gotN, gotErr = n, err
+				_ = sentinel.pad[0]
+				_ = b.Close()
+			})
+		})
+	}()
+	if c.Failed() {
+		return
+	}
+	_, _ = rawpeer.WriteSome(peerA, []byte("go"))
+	for i := 0; i < 2000 && firstDone == 0; i++ {
+		_ = ioc.RunOneFor(time.Millisecond)
+	}
+	if peerA >= 0 {
+		defer syscall.Close(peerA)
+	}
+	if peerB >= 0 {
+		defer syscall.Close(peerB)
+	}
+	if firstDone != 1 || vfd < 0 || completed != 0 {
+		c.Logf("recreate-inside-handler: first read completed %d times, second connection fd %d, its read completed %d times: probe skipped", firstDone, vfd, completed)
+		c.Count("recreate_inside_handler_probes_skipped", 1)
+		return
+	}
+	for round := 0; round < 3; round++ {
+		runtime.GC()
+		junk := make([][]byte, 0, 500)
+		for i := 0; i < 500; i++ {
+			junk = append(junk, make([]byte, 512))
+		}
+		_ = junk
+	}
+	time.Sleep(time.Millisecond)
+	c.Count("recreate_inside_handler_probes", 1)
+	if sameNumber {
+		c.Count("recreate_inside_handler_probes_with_the_number_reused", 1)
+	}
+	if *finalized == 1 {
+		c.Failf("owner-of-in-flight-operation-collected/conn-created-inside-the-handler-of-the-closed-one", "a connection dialed (descriptor number reused: %v) and given a deferred read inside the completion handler of the connection it replaces was garbage collected while that read was in flight", sameNumber)
+		return
+	}
+	_, _ = rawpeer.WriteSome(peerB, []byte("0123456789"))
+	why := c13Await(ioc, vfd, unix.POLLIN, &completed)
+	if why == "skip" {
+		c.Count("probes_skipped_trigger_never_reached_the_descriptor", 1)
+	} else if completed != 1 || gotErr != nil || gotN != 10 {
+		c.Failf("completion-not-delivered-after-gc/conn-created-inside-the-handler-of-the-closed-one", "the read of the connection created inside the handler completed %d times with n=%d err=%v (%s)", completed, gotN, gotErr, why)
+	}
+}
+
 // c13GC: an object with a deferred operation whose every user reference is dropped must survive the GC
 // and still deliver its completion.
 func c13GC(c *vf.Case, ioc *sonic.IO) {
@@ -1558,6 +1665,9 @@ func runC13(c *vf.Case) {
 		c13GC(c, ioc)
 		if !c.Failed() {
 			c13GCRearm(c, ioc)
+		}
+		if !c.Failed() {
+			c13RecreateInsideHandler(c, ioc)
 		}
 		if !c.Failed() {
 			c13CloseOrders(c)
